@@ -556,6 +556,10 @@ func (a *Async) byz() {
 	if idx < 0 {
 		return
 	}
+	if idx == refPrimary(h, v, len(w.Cfg.Validators(h))) && h == t.D.BlockIndex && v == t.D.ViewNumber && a.pct("equivocate", 35) {
+		a.equivocate(j, idx, h, v, honest)
+		return
+	}
 	p := a.fabricate(j, idx, h, v, t, true)
 	if p == nil {
 		return
@@ -577,6 +581,56 @@ func (a *Async) byz() {
 		a.afterCall(t)
 	} else {
 		w.send(p, j, t.ID)
+	}
+}
+
+// equivocate: the Byzantine primary of (h,v) hands proposal A to one drawn part of the honest
+// nodes at once, leaves a different proposal B in flight for the rest, and puts its own valid
+// commits (pre-commits) for A and for B in flight to the respective parts. Whether the parts'
+// commits overtake the other proposal is up to the scheduler.
+func (a *Async) equivocate(j, idx int, h uint32, v byte, honest []*Node) {
+	w := a.W
+	var at []*Node
+	for _, n := range honest {
+		if n.D.BlockIndex == h && n.D.ViewNumber == v && !n.D.RequestSentOrReceived() {
+			at = append(at, n)
+		}
+	}
+	if len(at) < 2 {
+		return
+	}
+	mask := 1 + a.r("eqmask", (1<<uint(min(len(at), 8)))-2)
+	ts := at[0].TipTs + w.Cfg.TsIncrement
+	mkProp := func(nonce uint64) Payload {
+		var hs []vt.H
+		if len(w.Universe) > 0 && a.pct("eqtx", 40) {
+			hs = append(hs, w.Universe[a.r("tx", len(w.Universe))].Hash())
+		}
+		p := vt.New(dbft.PrepareRequestType, h, v, uint16(idx), j, &vt.PrepareRequest{Ts: ts, N: nonce, Hashes: hs})
+		w.Proposals = append(w.Proposals, p)
+		return p
+	}
+	pa, pb := mkProp(uint64(1000+w.Step)), mkProp(uint64(2000+w.Step))
+	follow := func(p Payload, to *Node) {
+		hd := headerOf(p, a.tipHashFor(to, h))
+		if w.Cfg.AMEVOn(h) {
+			pbk := &vt.PreBlock{Header: hd}
+			w.send(vt.New(dbft.PreCommitType, h, v, uint16(idx), j, &vt.PreCommit{D: pbk.DataFor(j)}), j, to.ID)
+		}
+		b := &vt.Block{Header: hd, AMEV: w.Cfg.AMEVOn(h)}
+		w.send(vt.New(dbft.CommitType, h, v, uint16(idx), j, &vt.Commit{Sig: b.SignFor(j)}), j, to.ID)
+	}
+	w.Stat("byz_equivocation")
+	w.act("byz(%d) equivocates at (%d,%d): A=%s to mask %b at once, B=%s in flight to the rest", j, h, v, pa.Summary(), mask, pb.Summary())
+	for i, n := range at {
+		if mask&(1<<uint(i%8)) != 0 {
+			follow(pa, n)
+			n.Receive(pa)
+			a.afterCall(n)
+		} else {
+			w.send(pb, j, n.ID)
+			follow(pb, n)
+		}
 	}
 }
 
